@@ -36,6 +36,8 @@ pub struct Entry {
     /// central header: force (usize, csize, offset) into the ZIP64 extra record
     pub zip64_central: (bool, bool, bool),
     pub gap_before: Vec<u8>,
+    /// version-needed written in the LOCAL header when it differs from the central one
+    pub local_version: Option<u16>,
     // --- lies (None = truthful) ---
     pub lie_central_csize: Option<u64>,
     pub lie_central_usize: Option<u64>,
@@ -72,6 +74,7 @@ impl Entry {
             zip64_local: false,
             zip64_central: (false, false, false),
             gap_before: vec![],
+            local_version: None,
             lie_central_csize: None,
             lie_central_usize: None,
             lie_central_offset: None,
@@ -95,6 +98,8 @@ pub struct Layout {
     pub zip64_eocd: bool,
     pub trailing: Vec<u8>,
     pub gap_before_cd: Vec<u8>,
+    /// (version made by, version needed) of the ZIP64 end record
+    pub end64_versions: (u16, u16),
     // lies on the end records
     pub lie_count: Option<u64>,
     pub lie_cd_size: Option<u64>,
@@ -116,6 +121,7 @@ impl Layout {
             zip64_eocd: false,
             trailing: vec![],
             gap_before_cd: vec![],
+            end64_versions: (45, 45),
             lie_count: None,
             lie_cd_size: None,
             lie_cd_offset: None,
@@ -168,7 +174,7 @@ pub fn build(l: &Layout) -> Built {
         extra.extend_from_slice(&e.local_extra);
         let lname = e.local_name.as_ref().unwrap_or(&e.name);
         p32(&mut out, e.local_sig);
-        p16(&mut out, e.version_needed);
+        p16(&mut out, e.local_version.unwrap_or(e.version_needed));
         p16(&mut out, flags);
         p16(&mut out, e.method);
         p16(&mut out, e.time);
@@ -217,9 +223,12 @@ pub fn build(l: &Layout) -> Built {
         let usize_ = e.lie_central_usize.unwrap_or(e.usize_);
         let off = e.lie_central_offset.unwrap_or(rel_offsets[i]);
         let (zu, zc, zo) = e.zip64_central;
-        let zu = zu || usize_ > 0xFFFFFFFF;
-        let zc = zc || csize > 0xFFFFFFFF;
-        let zo = zo || off > 0xFFFFFFFF;
+        // APPNOTE 4.4.8/4.4.9/4.4.16: a 32-bit slot holding 0xFFFFFFFF means "look in the ZIP64
+        // record", so a true value of exactly 0xFFFFFFFF has to go through the record as well
+        // (otherwise a reader mis-assigns the fields of a record that is present for another reason)
+        let zu = zu || usize_ >= 0xFFFFFFFF;
+        let zc = zc || csize >= 0xFFFFFFFF;
+        let zo = zo || off >= 0xFFFFFFFF;
         let mut extra = vec![];
         if zu || zc || zo {
             p16(&mut extra, 1);
@@ -266,8 +275,8 @@ pub fn build(l: &Layout) -> Built {
         let pos = out.len() as u64;
         p32(&mut out, 0x06064b50);
         p64(&mut out, 44);
-        p16(&mut out, 45);
-        p16(&mut out, 45);
+        p16(&mut out, l.end64_versions.0);
+        p16(&mut out, l.end64_versions.1);
         p32(&mut out, d1);
         p32(&mut out, d2);
         p64(&mut out, n);
